@@ -59,8 +59,11 @@ def _targets(t):
         yield t
 
 
-def effects_in(fnode, nested=False):
-    """Heap effects of a function body: attribute/subscript stores, deletes, mutating method calls, setattr."""
+def effects_in(fnode, nested=False, aug_names=False):
+    """Heap effects of a function body: attribute/subscript stores, deletes, mutating method calls, setattr.
+    ``aug_names``: also report ``x op= v`` on a plain local as kind 'augname' (target: the Name) -- for a mutable object
+    (``s |= t`` on a set, ``l += t`` on a list) that is an in-place mutation of whatever object the local holds; the
+    caller decides whether the local can hold such an object (see ``aug_rebinds`` / ``known_immutable``)."""
     out = []
     nodes = ast.walk(fnode) if nested else walk_body(fnode)
     for n in nodes:
@@ -73,6 +76,8 @@ def effects_in(fnode, nested=False):
             t = n.target
             if isinstance(t, (ast.Attribute, ast.Subscript)):
                 out.append(Effect('store', t, n))
+            elif aug_names and isinstance(n, ast.AugAssign) and isinstance(t, ast.Name):
+                out.append(Effect('augname', t, n))
         elif isinstance(n, ast.Delete):
             for t in n.targets:
                 if isinstance(t, (ast.Attribute, ast.Subscript)):
@@ -116,6 +121,9 @@ FRESH_CALLS = {'dict', 'list', 'set', 'tuple', 'frozenset', 'defaultdict', 'Orde
                'zip', 'map', 'filter', 'str', 'bytes', 'int', 'float', 'object', 'type', 'iter', 'enumerate', 'range'}
 
 
+COPY_METHODS = {'copy', 'deepcopy', 'union', 'intersection', 'difference', 'symmetric_difference'}
+
+
 def fresh_locals(repo, fi):
     """Local names that only ever hold objects allocated in this activation: literals, comprehensions,
     calls to container constructors or to classes of the analysed package / known constructors."""
@@ -135,6 +143,9 @@ def fresh_locals(repo, fi):
         if name in params:
             continue
         vals = assigned_value(fi.node, name)
+        # ``x op= v`` leaves in x the object it held (mutated in place) or a newly built one: the local is as fresh as
+        # its other assignments make it (it needs at least one of those)
+        vals = [(st, v, idx) for st, v, idx in vals if not isinstance(v, ast.AugAssign)]
         ok = bool(vals)
         for st, v, idx in vals:
             if isinstance(idx, int) and not _plain_unpack(st, v):
@@ -183,7 +194,74 @@ def _is_fresh_expr(repo, fi, v, idx, fresh):
             meth = repo.find_method(fi.cls, f.attr)
             if meth is not None and not meth.mod.external:
                 return returns_fresh(repo, meth)
+        if isinstance(f, ast.Attribute) and f.attr in COPY_METHODS and not (f.attr == 'copy' and (v.args or v.keywords)):
+            # x.copy() / s.union(t) / ...: the container protocol hands out a new object (copy.copy / copy.deepcopy included)
+            return not (isinstance(f.value, ast.Name) and f.value.id in ('self', 'cls') and f.attr == 'copy')
         return False
+    return False
+
+
+IMMUTABLE_CALLS = {'int', 'float', 'complex', 'str', 'bytes', 'bool', 'len', 'tuple', 'frozenset', 'repr', 'ord', 'chr', 'hash', 'id',
+                   'round', 'abs', 'format', 'hex', 'oct', 'bin', 'unicode', 'isinstance', 'callable', 'hasattr'}
+IMMUTABLE_METHODS = {'join', 'format', 'strip', 'lstrip', 'rstrip', 'lower', 'upper', 'title', 'encode', 'decode', 'replace', 'count',
+                     'index', 'find', 'rfind', 'startswith', 'endswith', 'total_seconds', 'hexdigest', 'digest', 'isoformat', 'zfill',
+                     'time', 'monotonic', 'perf_counter'}
+
+
+def aug_rebinds(aug):
+    """``x op= <number>`` with an operator no mutable built-in container accepts a number for (everything except ``*=``):
+    x holds a number, the statement re-binds x and mutates nothing."""
+    v = aug.value
+    if isinstance(v, ast.UnaryOp) and isinstance(v.op, (ast.USub, ast.UAdd)):
+        v = v.operand
+    return isinstance(v, ast.Constant) and isinstance(v.value, (int, float, complex)) and not isinstance(aug.op, (ast.Mult, ast.MatMult))
+
+
+def known_immutable(fi, v, _depth=0, _seen=()):
+    """The expression can only evaluate to an immutable built-in value (number, string, tuple, frozenset, None): decided
+    from its shape over a small abstract domain {immutable, unknown}; a local is followed to all its assignments, a
+    parameter counts when its default is a number / string / tuple."""
+    if _depth > 6:
+        return False
+    if isinstance(v, (ast.Constant, ast.JoinedStr, ast.Tuple, ast.Compare)):
+        return True
+    if isinstance(v, ast.UnaryOp):
+        return isinstance(v.op, ast.Not) or known_immutable(fi, v.operand, _depth + 1, _seen)
+    if isinstance(v, ast.BinOp):
+        # arithmetic / concatenation with an immutable operand yields that operand's kind of value (``[x] * 2`` is a list)
+        l, r = known_immutable(fi, v.left, _depth + 1, _seen), known_immutable(fi, v.right, _depth + 1, _seen)
+        return (l and r) if isinstance(v.op, (ast.Mult, ast.MatMult)) else (l or r)
+    if isinstance(v, ast.BoolOp):
+        return all(known_immutable(fi, x, _depth + 1, _seen) for x in v.values)
+    if isinstance(v, ast.IfExp):
+        return known_immutable(fi, v.body, _depth + 1, _seen) and known_immutable(fi, v.orelse, _depth + 1, _seen)
+    if isinstance(v, ast.Call):
+        f = v.func
+        if isinstance(f, ast.Name):
+            return f.id in IMMUTABLE_CALLS
+        return isinstance(f, ast.Attribute) and f.attr in IMMUTABLE_METHODS
+    if isinstance(v, ast.Name):
+        if v.id in _seen:
+            return False
+        a = fi.node.args
+        pos = a.posonlyargs + a.args
+        defaults = dict(zip([x.arg for x in pos[len(pos) - len(a.defaults):]], a.defaults))
+        defaults.update((x.arg, d) for x, d in zip(a.kwonlyargs, a.kw_defaults) if d is not None)
+        vals = assigned_value(fi.node, v.id)
+        if v.id in fi.params() or (a.vararg and a.vararg.arg == v.id) or (a.kwarg and a.kwarg.arg == v.id):
+            d = defaults.get(v.id)
+            if a.vararg and a.vararg.arg == v.id:
+                pass            # *args is a tuple
+            elif not (isinstance(d, (ast.Constant, ast.Tuple)) and not (isinstance(d, ast.Constant) and d.value is None)):
+                return False
+        elif not vals:
+            return False
+        for st, val, idx in vals:
+            if isinstance(val, ast.AugAssign):
+                continue        # keeps the kind of value the other assignments give the local
+            if idx is not None or not known_immutable(fi, val, _depth + 1, _seen + (v.id,)):
+                return False
+        return True
     return False
 
 
